@@ -841,6 +841,8 @@ func runHist(h []int, extra json.RawMessage) (out xplore.Out) {
 	return
 }
 
+func jsonMarshal(v interface{}) ([]byte, error) { return json.Marshal(v) }
+
 func main() {
 	spec2 := &xplore.Spec{Name: "c14-E2", Run: runHist, Recycle: 4000, Describe: describe}
 	spec3 := &xplore.Spec{Name: "c14-E3", Run: runHist, Recycle: 4000, Describe: describe}
